@@ -1386,12 +1386,31 @@ def w_completion(failure, tier):
                     return dict(found=True, cmd='%s search <<< hex(json)' % BIN,
                                 input='%d documents over %d terms pre00.. in %d segment(s); completion on body, prefix "pre", size %d' % (len(docs), nterms, len(batches), size),
                                 observed='options %s' % got, expected='%s (term, number of documents containing it), by count descending then text' % want)
-    return dict(found=False, note='completion: %d (corpus, size, segment layout) combinations agree with the document counts of the corpus' % n)
+        # fuzzy completion: 13 of the terms lie within one edit of "pre00" (fewer than the expansion cap of 20): the answer
+        # must not depend on the layout
+        freq = dict(REQ_BASE, query={"type": "match_all"}, limit=1,
+                    suggest={"s": {"type": "completion", "field": "body", "prefix": "pre00", "size": 8,
+                                   "fuzzy": {"max_edits": 1, "prefix_length": 3, "max_expansions": 20, "min_length": 3}}})
+        ref = None
+        for li, batches in enumerate(layouts):
+            out, err = drive_search({"schema": None, "batches": batches, "requests": [freq]})
+            if out is None or 'ok' not in out[0]:
+                return dict(found=False, note='search driver failed: %s' % (err or str(out)[:200]))
+            got = [(o['text'], o['doc_freq'], round(o['score'], 4)) for o in out[0]['ok'].get('suggest', {}).get('s', {}).get('options', [])]
+            n += 1
+            if ref is None:
+                ref = got
+            elif got != ref:
+                return dict(found=True, cmd='%s search <<< hex(json)' % BIN,
+                            input='%d documents over %d terms pre00.. ; fuzzy completion on body, prefix "pre00", max_edits 1, max_expansions 20, size 8; one segment against %d segments' % (len(docs), nterms, len(batches)),
+                            observed='%d segments: %s' % (len(batches), got), expected='%s (the single-segment answer)' % ref)
+    return dict(found=False, note='completion: %d (corpus, size, segment layout) combinations agree with the document counts of the corpus (prefix) or with the single-segment answer (fuzzy)' % n)
 
 
 GENERATORS = {
     ('U39', 'prefix_candidates'): w_completion,
     ('U39', 'suggest_cut'): w_completion,
+    ('U39', 'fuzzy_candidates'): w_completion,
     ('U38', 'load'): w_relocate,
     ('U38', 'segment_paths'): w_relocate,
     ('U38', 'cleanup_segments'): w_relocate,
